@@ -39,11 +39,13 @@ let () =
         expect "B";
         let present = int_of_string (next ()) in
         let v = nz () in let dt = nz () in let rt = nz () in
-        let bp = if present = 0 then None else Some { b_validity = v; b_dump_tid = dt; b_req_tid = rt } in
+        (* present: 1 = the 12-byte structure, 2 = truncated to 8 bytes, 3 = 16 bytes; the model decides readability *)
+        let bp = if present = 0 then None else
+          bp_of_stream (z_of_int (match present with 2 -> 8 | 3 -> 16 | _ -> 12)) { b_validity = v; b_dump_tid = dt; b_req_tid = rt } in
         expect "M";
         let present = int_of_string (next ()) in
-        let _size = nz () in let f1 = nz () in let pid = nz () in let ct = nz () in
-        let misc = if present = 0 then None else Some { mi_flags1 = f1; mi_pid = pid; mi_ctime = ct } in
+        let size = nz () in let f1 = nz () in let pid = nz () in let ct = nz () in
+        let misc = if present = 0 then None else misc_of_stream size { mi_flags1 = f1; mi_pid = pid; mi_ctime = ct } in
         expect "L";
         let present = int_of_string (next ()) in
         let _kind = next () in let _lpid = next () in
